@@ -14,7 +14,7 @@ from .core import Ctx, PathEnd, PyExc, Unsupported, model_value
 from .interp import Interp, _Return
 from .replay import model_values, replay_native
 
-AUX_KINDS = {"inv-init", "inv-pres", "variant", "model-range", "unwind", "lemma-base", "lemma-step"}
+AUX_KINDS = {"inv-init", "inv-pres", "variant", "model-range", "unwind", "lemma"}
 MAX_PATHS = 4000
 
 
